@@ -211,21 +211,43 @@ def item_atoms(items):
 # ----------------------------------------------------------------------------- tables (the numeric environment)
 
 
+IDEM = dict(wrap_checked=0, wrap_not_idempotent=0, norm_checked=0, norm_not_idempotent=0)
+
+
 def wrap_bits(b):
     with np.errstate(all="ignore"):
-        return bits(neg_pi_to_pi(np.float64(unbits(b))))
+        w = neg_pi_to_pi(np.float64(unbits(b)))
+        r = bits(w)
+        IDEM["wrap_checked"] += 1
+        w2 = neg_pi_to_pi(w)
+        if bits(w2) != r and not (math.isnan(w) and math.isnan(w2)):
+            IDEM["wrap_not_idempotent"] += 1  # hypothesis WrapIdem of C13.canon_idempotent
+        return r
 
 
 def normq_bits(q4):
     with np.errstate(all="ignore"):
         p = PoseSE3([0.0, 0.0, 0.0], [unbits(b) for b in q4])
         p.normalize()
-        return arr_bits(p[3:])
+        r = arr_bits(p[3:])
+        p.normalize()
+        IDEM["norm_checked"] += 1
+        if arr_bits(p[3:]) != r:
+            IDEM["norm_not_idempotent"] += 1  # NormIdem holds in exact arithmetic only: measured, not assumed by `roundtrip`
+        return r
+
+
+CANONICAL_NAN = "7ff8000000000000"
 
 
 def fmt_float(b, problems):
     x = np.float64(unbits(b))
     s = "{}".format(x)
+    if math.isnan(x) and b != CANONICAL_NAN:
+        # a NaN with a sign / payload is printed as "nan": outside the hypothesis GoodF of the round-trip theorem (the
+        # export and import ties are still checked exactly); counted, not a failure
+        problems.append(dict(exempt="nan-payload", value=b))
+        return s
     if s != str(x):
         problems.append(dict(assumption="format == str", value=b))
     ok = bool(s) and not any(c.isspace() for c in s)
@@ -268,7 +290,7 @@ class Checker:
         self.dir = os.path.join(TMP_ROOT, "%s_%d" % (tag, os.getpid()))
         os.makedirs(self.dir, exist_ok=True)
         self.n = 0
-        self.res = dict(cases=0, export_cases=0, import_cases=0, char_cases=0, distinct_nontrivial=0, disagreements=[], samples=[], assumption_failures=[], not_modelled=0,
+        self.res = dict(cases=0, export_cases=0, import_cases=0, char_cases=0, distinct_nontrivial=0, disagreements=[], samples=[], assumption_failures=[], not_modelled=0, nan_atoms_outside_assumption=0,
                         export_outcomes={}, import_outcomes={}, loaders={}, line_kinds={}, element_kinds={}, cycles={}, defects={}, spellings={}, max_lines=0, warnings_seen=0)
         self.seen = set()
         self.cap = LogCapture()
@@ -327,7 +349,9 @@ class Checker:
         tF = ["%s:%s" % (b, enc(fmt_float(b, problems))) for b in sorted(fl)]
         tI = ["%s:%s" % (i, enc(fmt_int(i, problems))) for i in sorted(ids)]
         for pr in problems:
-            if len(self.res["assumption_failures"]) < 5:
+            if "exempt" in pr:
+                self.res["nan_atoms_outside_assumption"] += 1
+            elif len(self.res["assumption_failures"]) < 5:
                 self.res["assumption_failures"].append(pr)
         path = self.path()
         err = None
@@ -930,6 +954,8 @@ def gen_file(rng, malformed, customs=(), stats=None, dstats=None):
 def run(seed, n_graphs, n_files):
     ck = Checker()
     res = ck.res
+    for k in IDEM:
+        IDEM[k] = 0
     try:
         ck.check_whitespace_table()
         # fixed corpus: small hand-written files that pin the documented corner cases
@@ -975,6 +1001,9 @@ def run(seed, n_graphs, n_files):
                 break
     finally:
         ck.close()
+    res["idempotence"] = dict(IDEM)
+    if IDEM["wrap_not_idempotent"]:
+        res["assumption_failures"].append(dict(assumption="neg_pi_to_pi idempotent (WrapIdem)", count=IDEM["wrap_not_idempotent"]))
     res["ok"] = not res["disagreements"] and not res["assumption_failures"]
     return res
 
